@@ -44,7 +44,8 @@ def build(nodes_cfg, services, node_order, svc_order, facility):
         for cn, model in MIXES[mix]:
             n.add_component(name=cn, model_type=ComponentModelType[model])
     if facility:
-        t.add_facility(name='fac1', site='S1', labels=Labels(vlan='100'))
+        # (a site of its own: nothing else in the slice names it)
+        t.add_facility(name='fac1', site='S3', labels=Labels(vlan='100'))
     used = {}
     for j in svc_order:
         kind, k = services[j]
@@ -93,6 +94,8 @@ def tally(t):
         d = raw.nodes[n]
         if d['Type'] == 'Facility':
             out['fac'].append(d['Name'])
+            if d.get('Site'):
+                out['sites'].add(d['Site'])      # a facility's site is a site the slice uses
             continue
         caps = js(n, 'Capacities')
         if caps:
